@@ -1,0 +1,84 @@
+//go:build verif
+
+package zset
+
+// Read-only accessor for the verification harness (build tag verif): a structural dump of the
+// skip list behind a Set. Nothing here is compiled into a normal build.
+
+// VerifNode describes one list node in level-0 order.
+// Next[i] is the 0-based level-0 index of the level-i successor (-1 = nil, -2 = a node that is
+// not reachable on level 0, -3 = the header); Span[i] is the stored span; Prev likewise.
+type VerifNode[K comparable] struct {
+	Value K
+	Score float64
+	Level int
+	Next  []int
+	Span  []int
+	Prev  int
+}
+
+// VerifDump is the whole list: header levels 0..max(highestLevel, last non-cleared level+1)-1.
+type VerifDump[K comparable] struct {
+	Highest    int
+	Length     int
+	Tail       int
+	HeaderNext []int
+	HeaderSpan []int
+	Nodes      []VerifNode[K]
+	Truncated  bool // level-0 chain longer than the guard (cycle)
+}
+
+// VerifDump returns the structure of the underlying skip list. No locking: the harness calls it
+// between operations.
+func (z *Set[K]) VerifDump() VerifDump[K] {
+	l := z.list
+	idx := map[*listNode[K]]int{}
+	var order []*listNode[K]
+	guard := l.length + 1<<16
+	var d VerifDump[K]
+	for x := l.header.loadNext(0); x != nil; x = x.loadNext(0) {
+		if _, seen := idx[x]; seen || len(order) > guard {
+			d.Truncated = true
+			break
+		}
+		idx[x] = len(order)
+		order = append(order, x)
+	}
+	at := func(p *listNode[K]) int {
+		if p == nil {
+			return -1
+		}
+		if p == l.header {
+			return -3
+		}
+		if i, ok := idx[p]; ok {
+			return i
+		}
+		return -2
+	}
+	d.Highest, d.Length, d.Tail = l.highestLevel, l.length, at(l.tail)
+	top := l.highestLevel
+	for lv := 0; lv < maxLevel; lv++ {
+		if n, s := l.header.loadNextAndSpan(lv); (n != nil || s != 0) && lv+1 > top {
+			top = lv + 1
+		}
+	}
+	if top > maxLevel {
+		top = maxLevel
+	}
+	for lv := 0; lv < top; lv++ {
+		n, s := l.header.loadNextAndSpan(lv)
+		d.HeaderNext = append(d.HeaderNext, at(n))
+		d.HeaderSpan = append(d.HeaderSpan, s)
+	}
+	for _, x := range order {
+		vn := VerifNode[K]{Value: x.value, Score: x.score, Level: x.level, Prev: at(x.prev)}
+		for lv := 0; lv < x.level && lv < maxLevel; lv++ {
+			n, s := x.loadNextAndSpan(lv)
+			vn.Next = append(vn.Next, at(n))
+			vn.Span = append(vn.Span, s)
+		}
+		d.Nodes = append(d.Nodes, vn)
+	}
+	return d
+}
